@@ -196,4 +196,67 @@ def Disciplined (d : Data) (last : Option Data) (seen : List Ind) : List (Ev Ind
 
 end proxy
 
+/-! ### the call sites that change the training data (HAND-MODELLED from the sources)
+
+  src/kernel/gp/src/dss.cc              dss::init / shake / close
+  src/kernel/gp/src/holdout_validation.cc   holdout_validation::init  (shake/close: base class, nothing)
+  src/kernel/search.tcc                 search::run: `vs_->init(r); evolution.run(r, shake); vs_->close(r)`
+  src/kernel/evolution.tcc              `if (shake(gen)) best.fitness = eva_(best)`  (an evaluation)
+
+  What is recorded of each site is only: does it replace the training set, and does it call
+  `clear()` on the cached evaluators afterwards.  (Which examples are selected is C16's business.) -/
+
+inductive Site where
+  | dssInit (run : Nat)
+  | dssShake (gap gen : Nat)        -- env.dss = gap
+  | dssClose (run : Nat)
+  | holdoutInit (run : Nat)
+  | holdoutShake (gen : Nat)
+  | holdoutClose (run : Nat)
+deriving Repr, DecidableEq
+
+/-- does the step replace the training set? -/
+def Site.changes : Site → Bool
+  | .dssInit _ => true
+  | .dssShake gap gen => !(gen == 0 || gen % gap != 0)
+  | .dssClose _ => true
+  | .holdoutInit run => run == 0
+  | .holdoutShake _ => false
+  | .holdoutClose _ => false
+
+/-- does the step end with `clear_evaluators()`? -/
+def Site.clears : Site → Bool
+  | .dssInit _ => true
+  | .dssShake gap gen => !(gen == 0 || gen % gap != 0)
+  | .dssClose _ => true
+  | .holdoutInit _ => false          -- holdout_validation has no access to the evaluators
+  | .holdoutShake _ => false
+  | .holdoutClose _ => false
+
+/-- events at call-site level: a validation-strategy step (with the data it leaves behind), an
+    evaluation through the proxy, an explicit clear, a save/load round trip -/
+inductive CEv (Ind Data : Type) where
+  | site (s : Site) (d : Data)
+  | eval (i : Ind)
+  | clear
+  | reload
+
+def CEv.expand {Ind Data : Type} : CEv Ind Data → List (Ev Ind Data)
+  | .site s d => (if s.changes then [.setData d] else []) ++ (if s.clears then [.clear] else [])
+  | .eval i => [.eval i]
+  | .clear => [.clear]
+  | .reload => [.reload]
+
+def expandAll {Ind Data : Type} (es : List (CEv Ind Data)) : List (Ev Ind Data) := es.flatMap CEv.expand
+
+/-- The call-site obligation: every step that replaces the training set either clears the cached
+    evaluators or happens while the cache is still empty (`fresh`: nothing evaluated or loaded since
+    the last clear). -/
+def CSafe {Ind Data : Type} (fresh : Bool) : List (CEv Ind Data) → Prop
+  | [] => True
+  | .site s _ :: es => (s.changes = true → s.clears = true ∨ fresh = true) ∧ CSafe (s.clears || fresh) es
+  | .eval _ :: es => CSafe false es
+  | .clear :: es => CSafe true es
+  | .reload :: es => CSafe fresh es
+
 end Vita.C04
